@@ -34,6 +34,15 @@ def handle (args : List String) : Option String :=
   | ["write", cfd, comp, body] => do
       let s : Stream := ⟨true, true, 0, false, []⟩
       return showStream (writeSession s (b cfd) (b comp) (b body))
+  | ["writeev", cfd, pts, body] => do
+      let s : Stream := ⟨true, true, 0, false, []⟩
+      return showStream (writeSessionEvlrs s (b cfd) (b pts) (b body))
+  | "readlas" :: sk :: ri :: sig :: hc :: coh :: wr :: m4 :: np :: ne :: off :: rl :: cfd :: late :: [] => do
+      let f ← parseFile [sig, hc, coh, wr, m4, np, ne, off, rl]
+      let s : Stream := ⟨b sk, b ri, 0, false, []⟩
+      let lf := if late = "source" then LateFailure.source else if late = "read" then LateFailure.read else LateFailure.none
+      let (s', fl) := readLas s f (b cfd) lf
+      return (match fl with | .none => "ok " | .laspy => "laspy " | .other => "other ") ++ showStream s'
   | "append" :: sk :: sig :: hc :: coh :: wr :: m4 :: np :: ne :: off :: rl :: cfd :: body :: [] => do
       let f ← parseFile [sig, hc, coh, wr, m4, np, ne, off, rl]
       let s : Stream := ⟨b sk, true, 0, false, []⟩
